@@ -3,6 +3,7 @@ import Chewing.Proofs.PersistCrash
 import Chewing.Proofs.PersistEditor
 import Chewing.Proofs.PersistTerm
 import Chewing.Proofs.PersistSql
+import Chewing.Proofs.DictLink
 /-!
 # C10 — User-dictionary changes are durable; the file is replaced atomically
 
@@ -545,3 +546,128 @@ example : ∃ w, run (init { dict := fun _ => none, user := fun _ => none, maxId
 
 end Chewing.C10.Sql
 
+
+/-! ## linked: C10's assumptions about dictionary contents, discharged by C09's theorems
+
+`Proofs/DictLink.lean` runs C10's protocol over C09's **concrete** `TrieBuf` layers (`CWorld`,
+`cstep`: the control skeleton of `Model/Persist.lean`, the data functions of `Model/TrieBuf.lean`) and
+proves a forward simulation into the abstract model.  The three assumptions the abstract model makes
+about contents become theorems here, each resting on the C09 theorem named:
+
+* live = base overridden by pending minus tombstones — `live_is_abs_linked` (`TrieBuf.abs`, the map of
+  `C09.triebuf_refines`);
+* add / update / remove act on the layers as `Buf.add` / `Buf.put` / `Buf.remove`, `add_phrase` is
+  rejected exactly on a live phrase — `changes_refine_linked` (C09's `btGet_btInsert`, `btGet_btErase`,
+  `contains_graveErase/Insert`, `addOk_eq` = `C09.refines_step`);
+* `entries()` collected into a `TrieBuilder` is the live contents — `snapshot_is_entries_linked`
+  (C09's snapshot lemma `build_abs`; **no** exclusion of class UpdatePersisted: `entries()` then yields
+  the key twice, persisted value first, and `TrieBuilder::insert` replaces in place — the order of
+  `trie_iter.chain(btree_iter)` is what makes the written value the map's, `snapshot_order_matters`).
+
+What remains assumed about files: a complete file is the `List Leaf` written (`Trie.build es` is
+"insert all, write, open" in C09's model) — the byte-level round trip of that is C11
+(`read_write` / `lookup_correct`); it is NOT yet bridged to C09's `Trie.build` (needs `refFind = leafOf`
+and a permutation argument: C09's `leafCmp` still has the comparator from before the repair, so the
+two models order a leaf that mixes single characters and longer phrases differently). -/
+
+namespace Chewing.C10
+open Chewing.Persist Chewing.DictLink
+
+/-- C10's `Buf.live` of the abstraction of C09's layers is the encoding of the map C09's `TrieBuf`
+    denotes -/
+theorem live_is_abs_linked {s : TrieBuf.State} {b : Buf} (h : BufRel s b) : Rep (TrieBuf.abs s) b.live :=
+  live_rep h
+
+/-- every step of the protocol over C09's concrete operations (`TrieBuf.apply` for the three change
+    calls, `Trie.build (TrieBuf.entries st)` for the snapshot) is the corresponding step of C10's
+    abstract model with both repairs, and the abstraction relation is kept -/
+theorem changes_refine_linked {cw cw' : CWorld} {w : World} {a : CAct} (hs : Sim cw w) (ha : CActOk a)
+    (h : cstep cw a = some cw') : ∃ w', step cfgR w (encAct a) = some w' ∧ Sim cw' w' :=
+  sim_step hs ha h
+
+/-- the file the snapshot thread writes from C09's concrete `entries()` denotes exactly the live
+    contents — in every state, class UpdatePersisted included -/
+theorem snapshot_is_entries_linked {s : TrieBuf.State} {b : Buf} (hl : LInv s) (h : BufRel s b) :
+    Trie.SnapOk (Trie.build (TrieBuf.entries s)) ∧
+      Rep (TrieBuf.baseGet (Trie.build (TrieBuf.entries s))) b.live :=
+  build_rep hl h
+
+/-- … and the order of `entries_iter` (`trie_iter.chain(btree_iter)`) is what makes that true: with
+    the two halves swapped, the state of C09's F10 witness (add 100, snapshot adopted, update to 50)
+    would be written with the stale persisted value 100 although the map holds 50 -/
+theorem snapshot_order_matters :
+    let s := TrieBuf.run TrieBuf.initFile
+      [.add [10268] [28204] 100 (some 2), .flush, .reopen, .update [10268] [28204] 50 7]
+    let swapped := (TrieBuf.btEntries s.btree ++ Trie.entries s.snap).filter
+      (fun e => !(s.grave.contains (e.1, e.2.text)))
+    TrieBuf.abs s ([10268], [28204]) = some (50, 7) ∧
+    TrieBuf.baseGet (Trie.build (TrieBuf.entries s)) ([10268], [28204]) = some (50, 7) ∧
+    TrieBuf.baseGet (Trie.build swapped) ([10268], [28204]) = some (100, 2) := by
+  decide
+
+/-- **END TO END, in C09's terms.**  A file-backed user dictionary is opened on a well-formed trie
+    file `t0`; any history of `add_phrase` / `update_phrase` / `remove_phrase` (C09's concrete
+    operations on the concrete layers), `flush`, `reopen`, under **every** schedule of the snapshot
+    writer, over any number of close / open cycles, ends with the dictionary closed.  Then the file
+    at the path is a well-formed trie file `t` which holds exactly the map `MapSpec` computes from
+    the calls made (`opsOf acts`: rejected `add`s change nothing), and a `TrieBuf` opened on it
+    answers every exact lookup, the enumeration and every prefix lookup as that map — no exclusion:
+    the reopened dictionary is outside both C09 finding classes. -/
+theorem durable_lookup_linked (t0 : List Leaf) (h0 : Trie.SnapOk t0) (tmp : Option CFile) (htmp : TmpOk tmp)
+    (acts : List CAct) (hok : ∀ a ∈ acts, CActOk a) (cw : CWorld)
+    (hrun : crun (cinit t0 tmp) acts = some cw) (hcl : cw.phase = .closed) :
+    ∃ t, cw.fs .path = some (.complete t) ∧ Trie.SnapOk t ∧
+      (∀ pk, TrieBuf.baseGet t pk = MapSpec.Map.run (TrieBuf.baseGet t0) (opsOf acts) pk) ∧
+      TrieBuf.abs (freshSt t) = MapSpec.Map.run (TrieBuf.baseGet t0) (opsOf acts) ∧
+      (∀ k, MapSpec.IsLookup (MapSpec.Map.run (TrieBuf.baseGet t0) (opsOf acts)) k
+        (TrieBuf.lookupAll (freshSt t) k .standard)) ∧
+      MapSpec.IsEntries (MapSpec.Map.run (TrieBuf.baseGet t0) (opsOf acts)) (TrieBuf.entries (freshSt t)) ∧
+      (∀ q, Trie.fuzzyMatch q q = true →
+        MapSpec.IsFuzzyLookup Trie.fuzzyMatch (MapSpec.Map.run (TrieBuf.baseGet t0) (opsOf acts)) q
+          (TrieBuf.lookupAll (freshSt t) q .fuzzyPartialPrefix)) := by
+  obtain ⟨w, hr, hs⟩ := sim_run (sim_init h0 htmp) hok hrun
+  have hd := durable_spec cfgR rfl rfl _ _ _ w hr (hs.phase ▸ hcl)
+  have hp := hs.fs .path
+  rw [hd] at hp
+  cases hcf : cw.fs .path with
+  | none => rw [hcf] at hp; exact hp.elim
+  | some f =>
+    rw [hcf] at hp
+    cases f with
+    | partial_ => exact hp.elim
+    | complete t =>
+      have ht : TRel t _ := hp
+      have heq : ∀ pk, TrieBuf.baseGet t pk = MapSpec.Map.run (TrieBuf.baseGet t0) (opsOf acts) pk :=
+        rep_unique ht.2 (rep_spec (rep_absC _) acts)
+      have habs : TrieBuf.abs (freshSt t) = MapSpec.Map.run (TrieBuf.baseGet t0) (opsOf acts) := by
+        rw [abs_freshSt]
+        funext pk
+        exact heq pk
+      have hi := inv_freshSt ht.1
+      have hset := settled_freshSt t
+      refine ⟨t, rfl, ht.1, heq, habs, ?_, ?_, ?_⟩
+      · intro k
+        rw [← habs]
+        exact TrieBuf.lookup_agrees hi k (fun _ => TrieBuf.settled_not_shadowed hset _)
+      · rw [← habs]
+        exact TrieBuf.entries_agrees hi (fun key => TrieBuf.settled_not_shadowed hset key)
+      · intro q hq
+        rw [← habs]
+        exact TrieBuf.fuzzy_agrees hi q hq (TrieBuf.settled_not_fuzzyClass hset q)
+          (fun _ => TrieBuf.settled_not_shadowed hset _)
+
+/-- non-vacuity of `durable_lookup_linked`: learn 測 under ㄘㄜˋ, update it while the first snapshot
+    is being written, drop the dictionary: the run exists, ends closed, and the file holds the
+    updated entry -/
+example : ∃ cw, crun (cinit [] none)
+    [.add [10268] [28204] 5 none, .flush, .w, .w, .update [10268] [28204] 9 7, .close,
+     .w, .w, .w, .w, .w, .w, .w, .d, .d, .d, .w, .w, .w, .w, .w, .w, .w, .w, .w, .d] = some cw ∧
+    cw.phase = .closed ∧ creadPath cw.fs = some [([10268], [{ text := [28204], freq := 9, lastUsed := some 7 }])] :=
+  ⟨_, rfl, rfl, rfl⟩
+
+example : ∀ a ∈ ([.add [10268] [28204] 5 none, .update [10268] [28204] 9 7] : List CAct), CActOk a := by
+  intro a ha
+  simp only [List.mem_cons, List.not_mem_nil, or_false] at ha
+  rcases ha with rfl | rfl <;> (show TrieBuf.inRange _ = true) <;> decide
+
+end Chewing.C10
